@@ -234,21 +234,30 @@ class Parse4076_201(Contract):
     qualname = H + "parse_4076_201"
 
     def instances(self, tier):
-        return [{"layers": n} for n in (1, 2, 3, 4)] + [{"other": i} for i in ("4076_021", "1005", "1077", "4095", "4076_200")]
+        from contracts.message import header_chunks
+        # every other identity (all 4095 message numbers and the 255 other 4076 sub-types): returns None, raises nothing
+        return [{"layers": n} for n in (1, 2, 3, 4)] + [{"other_chunk": list(c)} for c in header_chunks(16)]
 
     def verify(self, eng, inst):
         fi = extract.func(self.qualname)
         Q = self.qualname
         st = State()
         canary = []
-        if "other" in inst:
-            ident = inst["other"]
-            msg = new_message(st, SBytes([DoAttributes.header_of(ident), generic_payload(st, "tail")]), immutable=True)
-            st.obj(msg).symbolic_pre = False
-            for s, out in eng.exec_function(fi, st, {"msg": msg}, contract=self):
-                canary.append(s)
-                eng.oblige(f"{Q}.post.returns_None_without_raising_for_other_messages[{ident}]", s,
-                           z3.BoolVal(not isinstance(out, RaiseExc) and out.v is None), note=repr(out))
+        if "other_chunk" in inst:
+            from contracts.message import all_headers
+            from spec.ident import ident as spec_ident
+            a, b = inst["other_chunk"]
+            for hdr in list(all_headers())[a:b]:
+                ident = spec_ident(hdr)
+                if ident == "4076_201":
+                    continue
+                st = State()
+                msg = new_message(st, SBytes([hdr[:3] if ident.startswith("4076") else hdr[:2], generic_payload(st, "tail")]), immutable=True)
+                st.obj(msg).symbolic_pre = False
+                for s, out in eng.exec_function(fi, st, {"msg": msg}, contract=self):
+                    canary.append(s)
+                    eng.oblige(f"{Q}.post.returns_None_without_raising_for_other_messages[{ident}]", s,
+                               z3.BoolVal(not isinstance(out, RaiseExc) and out.v is None), note=repr(out))
             return canary
         nl = inst["layers"]  # IDF035 is a 2-bit field: IDF035+1 in 1..4, the outer loop is unrolled completely
         msg = new_message(st, SBytes([DoAttributes.header_of("4076_201"), generic_payload(st, "tail")]), immutable=True)
